@@ -158,6 +158,32 @@ fn c02_apex_ns_referral() -> bool {
     ok
 }
 
+/// C15/C05: a prune leaves no expired record behind, also after the record that was next to expire has been re-inserted.
+fn c15_prune_after_reinsert() -> bool {
+    use dns_resolver::cache::Cache;
+    let mut cache = Cache::new();
+    let mut a = a_rr("x.example.", "1.1.1.1");
+    a.ttl = 1;
+    let ns = ResourceRecord {
+        name: dn("x.example."),
+        rtype_with_data: RecordTypeWithData::NS { nsdname: dn("ns.example.") },
+        rclass: RecordClass::IN,
+        ttl: 2,
+    };
+    cache.insert(&a);
+    cache.insert(&ns);
+    a.ttl = 100;
+    cache.insert(&a);
+    std::thread::sleep(std::time::Duration::from_millis(2500));
+    let res = cache.prune();
+    let left = cache.get_without_checking_expiration(&dn("x.example."), QueryType::Wildcard);
+    let left: Vec<_> = left.iter().map(|r| (r.rtype_with_data.rtype(), r.ttl)).collect();
+    println!("input: insert x.example. A ttl 1, x.example. NS ttl 2, re-insert the A record with ttl 100, wait 2.5 s, prune");
+    println!("required: the NS record (expired 0.5 s ago) is removed: prune reports 1 expired, 1 record remains");
+    println!("observed: prune() = {res:?}, remaining = {left:?}");
+    res.2 == 1 && left.len() == 1
+}
+
 fn main() {
     let w = std::env::args().nth(1).unwrap_or_default();
     let ok = match w.as_str() {
@@ -166,6 +192,7 @@ fn main() {
         "c12_wildcard_merge_dropped" => c12_wildcard_merge_dropped(),
         "c12_two_soas_after_merge" => c12_two_soas_after_merge(),
         "c02_apex_ns_referral" => c02_apex_ns_referral(),
+        "c15_prune_after_reinsert" => c15_prune_after_reinsert(),
         _ => {
             eprintln!("unknown witness `{w}`");
             exit(2)
